@@ -36,4 +36,12 @@ def justified : List Site := [
   ("similarity/molecular_similarity.py", "get_permutable_groups", "set(coords1.atom_labels)"),  -- strings: order irrelevant by C11_group_order_irrelevant,
   ("similarity/molecular_similarity.py", "get_permutable_groups", "set((tuple(sorted(row)) for row in elements_bonds1))")  -- tuples of strings: order irrelevant by C11_group_order_irrelevant
 ]
+
+/-- the Pool method that hands the pairs to the workers (`map` blocks until every task has been
+    dispatched and returns results by index; anything lazier lets the parent merge while later tasks
+    are still being pickled) -/
+def poolMethod : String := "map"
+/-- `permutational_alignment` reads the second structure's atoms from the untouched input
+    (`pristine`), not from the working copy it is overwriting group by group -/
+def costMatrixSource : String := "pristine"
 end TopSearch.Gen.HashSites
